@@ -22,10 +22,22 @@ static Shared S;
 NOCOVH static bool intact(const Res& r) { for (size_t k = 0; k < r.n; k++) if ((unsigned char)r.p[k] != r.pat) return false; return true; }
 NOCOVH static void fill(void* p, unsigned char pat, size_t n) { unsigned char* c = (unsigned char*)p; for (size_t k = 0; k < n; k++) c[k] = pat; }
 
+// "tight" runs give the mjData a small arena so that concurrent reservations meet the limit.  Exhaustion is an mju_error raised
+// inside mj_stackAlloc* on the worker's own stack: the task unwinds to its own entry (same thread) and records it.
+static thread_local jmp_buf* t_task_jmp = nullptr;
+static int g_exhausted[16];
+static char g_errmsg[300];   // message of the error raised on the MAIN thread (tid 0) only: no sharing between simulated threads
+static void on_mju_error(const char* msg) {
+  if (!vsim::active() || vsim::self() == 0) snprintf(g_errmsg, sizeof g_errmsg, "%s", msg);
+  if (t_task_jmp) longjmp(*t_task_jmp, 1);
+  violation("unexpected-error", "mju_error outside a task: %s", msg);
+}
 static void task(const mjModel* m, mjData* d, void* arg, int tid, int id) {
   (void)m; (void)arg;
   const TaskPlan& pl = S.plan[id];
   vsim::note(1, id);
+  jmp_buf jb; t_task_jmp = &jb;
+  if (setjmp(jb)) { t_task_jmp = nullptr; g_exhausted[id] = 1; vsim::note(3, id); return; }
   if (pl.markfree) mj_markStack(d);                 // engine tasks bracket their allocations: no-ops under the lock
   for (int i = 0; i < pl.nres; i++) {
     void* p;
@@ -36,6 +48,9 @@ static void task(const mjModel* m, mjData* d, void* arg, int tid, int id) {
     size_t al = pl.kind[i] == 0 ? pl.align[i] : pl.kind[i] == 1 ? sizeof(mjtNum) : sizeof(int);
     if (!p) violation("null-block", "task %d: reservation %d of %zu bytes returned NULL", id, i, n);
     if ((uintptr_t)p % al) violation("misaligned", "task %d: reservation of %zu bytes at %p not aligned to %zu", id, n, p, al);
+    // bounds first, so that a block outside the arena is reported before the harness writes its pattern into foreign memory
+    if ((char*)p < (char*)d->arena + d->parena || (char*)p + n > (char*)d->arena + d->narena)
+      violation("out-of-bounds", "task %d: reservation of %zu bytes at arena offset %td outside the free region [%zu,%zu)", id, n, (char*)p - (char*)d->arena, (size_t)d->parena, (size_t)d->narena);
     unsigned char pat = (unsigned char)(1 + id * 6 + i);
     fill(p, pat, n);
     S.res[id][i] = Res{(char*)p, n, al, pat};
@@ -45,6 +60,7 @@ static void task(const mjModel* m, mjData* d, void* arg, int tid, int id) {
     for (int j = 0; j <= i; j++) { const Res& r = S.res[id][j]; if (!intact(r)) violation("reservation-overlap", "task %d (thread %d): block %d of %zu bytes was overwritten while live", id, tid, j, r.n); }
   }
   if (pl.markfree) mj_freeStack(d);
+  t_task_jmp = nullptr;
   vsim::note(2, id);
 }
 
@@ -55,6 +71,7 @@ int main(int argc, char** argv) {
   install_handlers();
   engine_warmup();
   use_caching_alloc();
+  mju_user_error = on_mju_error;
   setvbuf(stdout, 0, _IOLBF, 0);
   char err[512] = "";
   mjSpec* spec = mj_parseXMLString(kModel, nullptr, err, sizeof err);
@@ -91,7 +108,11 @@ int main(int argc, char** argv) {
     cfg.starve_victim = r.range(0, nworker);
     cfg.opp_cap = 20000000;
     apply_overrides(cfg);
+    bool tight = r.chance(0.45);
+    m->narena = tight ? 8 * (size_t)r.range(300, 6000) : (size_t)1 << 20;     // 2.4 .. 48 KB, or ample
     mjData* d = mj_makeData(m);
+    g_scenario += tight ? " arena=" + std::to_string((long)m->narena) : " arena=ample";
+    bool ended_by_exhaustion = false;
     run_begin(s, cfg);
     mju_threadpool(d, nworker);
     for (auto& dp : disps) {
@@ -99,10 +120,12 @@ int main(int argc, char** argv) {
       std::vector<Res> pre;
       size_t ps0 = d->pstack, pb0 = d->pbase;
       for (int k = 0; k < dp.pre; k++) { mj_markStack(d); size_t n = (size_t)(40 + 24 * k); char* p = (char*)mj_stackAllocByte(d, n, 8); memset(p, 0xE0 + k, n); pre.push_back(Res{p, n, 8, (unsigned char)(0xE0 + k)}); }
-      memset(&S, 0, sizeof S);
+      memset(&S, 0, sizeof S); memset(g_exhausted, 0, sizeof g_exhausted);
       S.ntask = dp.ntask; for (int t = 0; t < dp.ntask; t++) S.plan[t] = dp.plan[t];
       size_t ps = d->pstack, pb = d->pbase, pa = d->parena;
       mju_dispatch(m, d, task, nullptr, dp.ntask);
+      int nexh = 0; for (int t = 0; t < dp.ntask; t++) nexh += g_exhausted[t];
+      if (nexh && !tight) violation("spurious-exhaustion", "a reservation raised '%s' although the arena is ample", g_errmsg);
       if (d->threadlock) violation("threadlock", "mjData still thread-locked after dispatch");
       if (d->pstack != ps || d->pbase != pb) violation("stack-not-restored", "pstack/pbase %zu/%zu -> %zu/%zu across a dispatch with reservations", ps, pb, (size_t)d->pstack, (size_t)d->pbase);
       if (d->parena != pa) violation("arena-moved", "parena changed across dispatch");
@@ -110,7 +133,7 @@ int main(int argc, char** argv) {
       char* lo = (char*)d->arena + d->parena; char* hi = (char*)d->arena + d->narena - ps;
       std::vector<Res> allr;
       for (int t = 0; t < dp.ntask; t++) {
-        if (S.nres_done[t] != dp.plan[t].nres) violation("lost-reservation", "task %d made %d of %d reservations", t, S.nres_done[t], dp.plan[t].nres);
+        if (S.nres_done[t] != dp.plan[t].nres && !g_exhausted[t]) violation("lost-reservation", "task %d made %d of %d reservations", t, S.nres_done[t], dp.plan[t].nres);
         for (int i = 0; i < S.nres_done[t]; i++) allr.push_back(S.res[t][i]);
       }
       for (size_t a = 0; a < allr.size(); a++) {
@@ -120,14 +143,25 @@ int main(int argc, char** argv) {
         if (!intact(allr[a])) violation("reservation-overlap", "a reservation was overwritten before the dispatch returned");
       }
       for (auto& b : pre) if (!intact(b)) violation("caller-block-clobbered", "a block the caller held across the dispatch was overwritten");
-      for (int k = 0; k < dp.pre; k++) mj_freeStack(d);
-      if (d->pstack != ps0 || d->pbase != pb0) violation("stack-not-restored", "caller frames not restored after the dispatch");
+      if (!nexh) {
+        for (int k = 0; k < dp.pre; k++) mj_freeStack(d);
+        if (d->pstack != ps0 || d->pbase != pb0) violation("stack-not-restored", "caller frames not restored after the dispatch");
+      }
       probe("reservations", allr.size());
+      if (nexh) {
+        // exhaustion under the thread lock is an mju_error: the instance is finished (no roll-back of the failed reservation); everything
+        // that WAS handed out has just been checked for bounds, disjointness and integrity, which is what "instead of corruption" means
+        probe("dispatches_ended_by_exhaustion"); probe("exhausted_tasks", nexh);
+        ended_by_exhaustion = true;
+        break;
+      }
       if (allr.size() >= 2) probe("dispatches_with_concurrent_reservations");
     }
     mju_threadpool(d, 0);
     run_end();
+    if (ended_by_exhaustion) { d->pstack = 0; d->pbase = 0; }
     mj_deleteData(d);
+    m->narena = (size_t)1 << 20;
     est_len = (est_len * 7 + vsim::stats().opportunities + 8) / 8;
   }
   g_agg.print(stdout);
